@@ -26,10 +26,11 @@ INVARIANTS = ["TypeOK", "NeverSingleton", "DegNeverExceeds", "SizeCountNeverExce
               "MatchingMeansExhausted", "OutputWellFormed", "PostHolds"]
 ALL_MODES = {"init", "seqs", "partial", "model"}
 EXPLORE = {
-    "quick": [dict(N=4, NEdges=3, MaxDeg=2, MaxW=1, Modes=ALL_MODES)],
-    "thorough": [dict(N=4, NEdges=3, MaxDeg=3, MaxW=2, Modes=ALL_MODES),
-                 dict(N=5, NEdges=3, MaxDeg=2, MaxW=1, Modes={"init"}),
-                 dict(N=4, NEdges=4, MaxDeg=2, MaxW=1, Modes={"seqs"})],
+    "quick": [dict(N=4, NEdges=3, MaxDeg=2, MaxW=1, Modes=ALL_MODES)],                       # 165 k states, 30 s
+    "thorough": [dict(N=4, NEdges=3, MaxDeg=3, MaxW=2, Modes=ALL_MODES),                  # 635 k states, 90 s
+                 dict(N=5, NEdges=3, MaxDeg=2, MaxW=1, Modes={"init"}),                   # 147 k states, 40 s
+                 dict(N=4, NEdges=4, MaxDeg=2, MaxW=1, Modes={"init"}),                   # 173 k states, 45 s
+                 dict(N=5, NEdges=3, MaxDeg=2, MaxW=1, Modes={"seqs"})],                  # 1.48 M states, 4-5 min
 }
 BIG = 1 << 28        # TLC integers are 32-bit: larger weights are not sent
 
@@ -366,15 +367,26 @@ def judge(res, specs, traces, owner, v):
             rejected_runs=len(first))
 
 
-def sample_runs(specs, res):
+def _chunk(specs):
+    """worker process: the sampler runs of one slice of the specs"""
+    hk = hooks()
+    return [make_trace(s, hk) for s in specs]
+
+
+def sample_runs(specs, res, pool=None):
+    """pool: futures (submitted by start_pool) that run the samplers in forked worker processes"""
     hk = hooks()
     traces, owner = [], []
     cnt = {"runs": 0, "runs_raised_without_sample": 0, "runs_raised_later": 0, "samples_judged": 0, "hook_events": 0,
            "oversize_runs_not_sent": 0, "flag_yes": 0, "flag_no": 0, "exact_clause_applicable": 0,
            "samples_with_coincidence_or_lost": 0}
     raised_kinds, by_mode = {}, {}
+    if pool is None:
+        results = [make_trace(s, hk) for s in specs]
+    else:
+        results = [x for f in pool for x in f.result()]
     for si, s in enumerate(specs):
-        tr, st = make_trace(s, hk)
+        tr, st = results[si]
         cnt["runs"] += 1
         by_mode[s["mode"]] = by_mode.get(s["mode"], 0) + 1
         if st["raised"]:
@@ -406,7 +418,7 @@ def sample_runs(specs, res):
 
 def make_specs(tier, seed):
     rng = random.Random(seed * 1000003 + 16)
-    k = {"quick": (220, 260, 110, 40), "thorough": (3500, 4000, 1600, 500)}[tier]
+    k = {"quick": (420, 480, 200, 60), "thorough": (8000, 9000, 4000, 1000)}[tier]
     specs = [spec_init(rng, tier) for _ in range(k[0])]
     specs += [spec_seqs(rng, tier) for _ in range(k[1])]
     specs += [spec_model(rng, tier) for _ in range(k[2])]
@@ -445,10 +457,15 @@ def finish_cov(res, traces, v, specs):
 def run(tier, seed):
     res = Result("C16", tier, seed, "model_checking")
     t0 = time.time()
-    with cf.ThreadPoolExecutor(max_workers=1) as ex:
+    specs = make_specs(tier, seed)
+    import multiprocessing as mp
+    nproc = 4 if tier == "quick" else 8
+    # worker processes are forked before the TLC thread starts; each runs slices of the specs in order
+    with cf.ProcessPoolExecutor(max_workers=nproc, mp_context=mp.get_context("fork")) as px, \
+            cf.ThreadPoolExecutor(max_workers=1) as ex:
+        pool = [px.submit(_chunk, specs[i:i + 40]) for i in range(0, len(specs), 40)]
         fut = ex.submit(explore, tier)              # TLC explores the design while the real sampler runs
-        specs = make_specs(tier, seed)
-        traces, owner = sample_runs(specs, res)
+        traces, owner = sample_runs(specs, res, pool)
         t1 = time.time()
         v = validate(traces, procs=4 if tier == "quick" else 10)
         t2 = time.time()
